@@ -325,7 +325,7 @@ func scenC02(r *Run) {
 				l2[k] = val
 			}
 			pu, _ := url.Parse(vic.id)
-			variant := []string{"https://" + pu.Host + ":8443" + pu.Path, "https://" + strings.ToUpper(pu.Host[:1]) + pu.Host[1:] + pu.Path, "https://" + pu.Host + "@" + E + pu.Path, "https://sub.evil.example" + pu.Path}[t.Draw(4)]
+			variant := []string{"//" + pu.Host + pu.Path, "https://" + pu.Host + ":8443" + pu.Path, "https://" + strings.ToUpper(pu.Host[:1]) + pu.Host[1:] + pu.Path, "https://" + pu.Host + "@" + E + pu.Path, "https://sub.evil.example" + pu.Path}[t.Draw(5)]
 			l2["id"] = variant
 			return l2, "embedded-with-lookalike-authority"
 		case 7:
@@ -465,6 +465,21 @@ func scenC02(r *Run) {
 				}
 			}
 		}
+	}
+	if t.Chance(1, 4) {
+		// an honest note on the victim's host whose text-supplied reference is written relative
+		// ("/redirect?to=evil"): it resolves to the victim host's open redirect, which lands on the
+		// attacker's forgery of another object of the victim's host
+		lie := Doc{}
+		for k, val := range n1 {
+			lie[k] = val
+		}
+		lie["name"], lie["content"] = "FORGED NAME", "<p>FORGED WORDS</p>"
+		serve("https://"+E+"/forged/viaopen", lie)
+		n3 := "https://" + H1 + "/o/n3"
+		serve(n3, Doc{"id": n3, "type": "Note", "name": "relative", "content": "<p>honest words</p>", "attributedTo": V, "inReplyTo": "/redirect?to=evil"})
+		entry = append(entry, n3)
+		shapes = append(shapes, "honest-note-with-relative-reference-to-its-hosts-open-redirect")
 	}
 	r.Describe("scenario", "c02")
 	r.Describe("forgery_shapes", shapes)
